@@ -27,7 +27,8 @@ META = {
         "overlapping matches finditer prefers on arbitrary text."
         ' Also: lock-down of default_ns/default_ew/ocr_scrub (guard asks about the argument; attribute not read again), an omitted default falls back to MasterConfig.<p> (not a frozen constant), the settings are known to Config, sub_scrubber replaces by position.'
         " Round 7: the OCR pattern's N/S group is mandatory while the number class contains 'S'; Twp/Rge negatives on section lists; the config word dispatch sends layout names to .layout (not to a direction); PLSSDesc.parse feeds the parser the original text."
-        ' Round 8: whoever reads `rgenum` reads its alternative `rgenum_edgecase_rge2` (exclusive groups from the branch structure); the list of Twp/Rges present before scrubbing is not padded.'),
+        ' Round 8: whoever reads `rgenum` reads its alternative `rgenum_edgecase_rge2` (exclusive groups from the branch structure); the list of Twp/Rges present before scrubbing is not padded.'
+        ' Round 11: the OCR look-alike table is read through chained .replace() calls or a str.maketrans table.'),
     'assumptions': [
         "zero-width assertions are epsilon in the inclusion test (the repo "
         "regex is over-approximated, so a reported counterexample is a true "
@@ -404,10 +405,7 @@ def _unpack_defuse(ctx):
 
 def _ocr_table(ctx):
     fi = ctx.repo.func('unpackers:ocr_scrub_alpha_to_num')
-    table = {}
-    for c in common.method_calls(fi.node, 'replace'):
-        if len(c.args) == 2 and all(isinstance(a, ast.Constant) and isinstance(a.value, str) for a in c.args):
-            table[c.args[0].value] = c.args[1].value
+    table = common.char_table(ctx, fi)      # chained .replace() calls or a str.maketrans table
     ctx.floor('ocr replacement entries', len(table), 3)
     need = {'S': '5', 'O': '0', 'I': '1', 'l': '1'}
     for k, v in need.items():
@@ -474,6 +472,16 @@ def _fixed_twprge(ctx):
                 bad = n
         if isinstance(n, ast.BinOp) and isinstance(n.op, ast.Sub) and 'set(' in norm(n):
             bad = n
+        # the same membership filter written as a loop: `for t in processed: if t not in orig: out.append(t)`
+        if isinstance(n, ast.For) and isinstance(n.target, ast.Name) and not any(
+                isinstance(m, ast.Call) and isinstance(m.func, ast.Attribute) and m.func.attr == 'remove' for m in ast.walk(n)):
+            for i_ in ast.walk(n):
+                if isinstance(i_, ast.If) and any(
+                        isinstance(t, ast.Compare) and len(t.ops) == 1 and isinstance(t.ops[0], ast.NotIn)
+                        and isinstance(t.left, ast.Name) and t.left.id == n.target.id and 'twprge' in norm(t.comparators[0]).lower()
+                        and 'orig' in norm(t.comparators[0]).lower() for t in ast.walk(i_.test)) \
+                        and any(isinstance(m, ast.Call) and isinstance(m.func, ast.Attribute) and m.func.attr == 'append' for m in ast.walk(i_)):
+                    bad = i_
         # positional difference: processed[len(orig):] assumes the completed
         # Twp/Rges come after all the complete ones
         if isinstance(n, ast.Subscript) and isinstance(n.slice, ast.Slice) and n.slice.lower is not None \
